@@ -25,7 +25,7 @@ ASSUMPTIONS = ['parent status (checked, state, state type) and period open/close
                'pointer-ordered containers (std::map keyed by Checkable*/TimePeriod*, std::set<Dependency::Ptr>) only influence the order '
                'of evaluation, which the model proves irrelevant for the verdicts observed; which cycle is REPORTED is not observed (log text)',
                'timestamps are whole seconds']
-TIMEOUT = 900
+TIMEOUT = 300
 
 
 class W:
@@ -424,7 +424,7 @@ def classify(case, detail, impl_lines):
 
 
 def keep_line(l):
-    return l.startswith(('dg_host', 'dg_svc', 'dg_tp', 'now'))
+    return l.startswith(('dg_host', 'dg_svc', 'dg_tp')) or l == 'now %d' % T0
 
 
 def extra_stats(cases, impl):
